@@ -27,7 +27,7 @@ NAMES = ["x", "-", "target", "A-B", "A", "A->B", "f(r,A)", "A.atomic_mass", "y",
 VALUES = ["2.5", "LAMMPS", "as.zero"]
 
 TARGETS = {n: "_config_parser._RawConfigParser (default_section='Variables', ExtendedInterpolation) and every ConfigParser accessor" for n in
-           ("unused_variable", "two_unused_variables", "unused_variable_fs", "placeholder_value", "cross_section_placeholder", "nested_cross_section", "placeholder_twice", "repeated_placeholder")}
+           ("unused_variable", "two_unused_variables", "unused_variable_fs", "placeholder_value", "cross_section_placeholder", "nested_cross_section", "placeholder_twice", "repeated_placeholder", "tabulation_placeholder")}
 
 
 def make(base):
@@ -272,6 +272,64 @@ def _rp_repeated(place, val, kind):
   return False, "repeated place-holders equal substitution", "agree"
 
 
+# every value of [Tabulation] may be written as a place-holder, the target (and its documented synonyms) included
+TAB_OPTIONS = [("target", "LAMMPS"), ("target", "DL_POLY"), ("target", "DLPOLY"), ("target", "lammps_eam_alloy"), ("target", "setfl"), ("target", "GULP"),
+               ("nr", "21"), ("dr", "0.25"), ("cutoff_rho", "50.0"), ("nrho", "8")]
+TAB_WAYS = ["variable", "explicit-variables-section", "cross-section"]
+
+
+def _tab_option(opt, val, way):
+  tmpl = OD((s, OD(e)) for s, e in BASE.items())
+  subst = OD((s, OD(e)) for s, e in BASE.items())
+  if opt == "dr":
+    del tmpl["Tabulation"]["nr"]
+    del subst["Tabulation"]["nr"]
+  subst["Tabulation"][opt] = val
+  if way == "variable":
+    tmpl["Tabulation"][opt] = "${my_variable}"
+    tmpl = with_vars(tmpl, [("my_variable", val)])
+  elif way == "explicit-variables-section":
+    tmpl["Tabulation"][opt] = "${Variables:my_variable}"
+    tmpl = with_vars(tmpl, [("my_variable", val)])
+    subst = with_vars(subst, [("my_variable", val)])
+  else:
+    tmpl["Orphan"]["my value"] = subst["Orphan"]["my value"] = val
+    tmpl["Tabulation"][opt] = "${Orphan:my value}"
+  return tmpl, subst
+
+
+def tabulation_placeholder(opt: int, way: int) -> bool:
+  """
+  pre: 0 <= opt < 10 and 0 <= way < 3
+  post: _
+  """
+  o, v = TAB_OPTIONS[opt]
+  o, v, w_ = concrete(o), concrete(v), concrete(TAB_WAYS[way])
+  with untraced():
+    tmpl, subst = _tab_option(o, v, w_)
+    a, b = snapshot(make(tmpl)), snapshot(make(subst))
+    a["orphan_sections"] = b["orphan_sections"] = None
+    return a == b
+
+
+def _rp_tab(opt, way):
+  o, v = TAB_OPTIONS[opt]
+  tmpl, subst = _tab_option(o, v, TAB_WAYS[way])
+  try:
+    want = snapshot(ConfigParser(io.StringIO(text_of(subst))))
+  except Exception as e:  # noqa
+    return False, "the substituted file itself is refused (%s)" % e, "agree"
+  try:
+    got = snapshot(ConfigParser(io.StringIO(text_of(tmpl))))
+  except Exception as e:  # noqa
+    return True, "[Tabulation] %s : %s (= %s, %s): %s: %s" % (o, tmpl["Tabulation"][o], v, TAB_WAYS[way], type(e).__name__, e), "tabulation-placeholder-" + type(e).__name__
+  want["orphan_sections"] = got["orphan_sections"] = None
+  d = _diff(want, got)
+  if d:
+    return True, "[Tabulation] %s : %s (= %s) differs from the substituted file in %s: %r vs %r" % (o, tmpl["Tabulation"][o], v, d, [got[k] for k in d], [want[k] for k in d]), "tabulation-placeholder-differs"
+  return False, "place-holder equals substitution", "agree"
+
+
 _IDX = list(range(8))
 
 
@@ -408,4 +466,5 @@ REPLAY = dict(
   nested_cross_section=_after_history(_rp_nested, 1),
   placeholder_twice=_rp_twice,
   repeated_placeholder=_rp_repeated,
+  tabulation_placeholder=_rp_tab,
 )
